@@ -665,7 +665,8 @@ def run(ctx):
         "scipy.interpolate.{UnivariateSpline,PchipInterpolator,Akima1DInterpolator,CubicHermiteSpline} are ORACLES: the "
         "model takes (value, nu=1, nu=2) of the object built from the flipped logarithmic nodes as given; the library "
         "contract 'nu=1, nu=2 evaluations are the first and second derivative of the nu=0 evaluation' is the hypothesis "
-        "of triple_consistent_oracle (sampled by finite differences, not proved)",
+        "of triple_consistent_oracle (global) / triple_consistent_library (pointwise, at the grid point; the piecewise "
+        "classes are only C^1 at breakpoints) - sampled by finite differences, not proved",
         "numpy.linalg.lstsq / scipy.interpolate.lagrange / KroghInterpolator are NOT trusted: their results are compared "
         "with the model's own least-squares / Newton interpolation in binary64 (rtol 1e-7; atol 1e-9/1e-8/1e-6 for "
         "omega/gamma/third)",
